@@ -206,6 +206,18 @@ class C07(Check):
                 alts.append(("memoryview-I", memoryview(bytearray(data)).cast("I")))
             elif sel == 4 and n % 2 == 0 and n >= 4:
                 alts.append(("memoryview-2d", memoryview(data).cast("B", shape=[2, n // 2])))
+        if got[0] == "ok" and n and (n + data[-1]) % 3 == 0:
+            # the returned object is a value of its own: changing the input buffer afterwards must not change it
+            ba = bytearray(data)
+            try:
+                o = pydsdl.deserialize(real, ba, with_delimiter_header=hdr) if hdr else pydsdl.deserialize(real, ba)
+                before = R.norm(o)
+                for i in range(len(ba)):
+                    ba[i] ^= 0xFF
+                if R.norm(o) != before or before != got[1]:
+                    out.fail("C07.isolation", "%s: the object returned for a bytearray changed when the bytearray was modified afterwards" % where, "isolation:aliases-input")
+            except Exception as ex:  # noqa
+                out.fail("C07.isolation", "%s: bytearray input raised %s" % (where, type(ex).__name__), "isolation:bytearray-raised")
         for nm, buf in alts:
             alt = self._decode_real(pydsdl, real, buf, hdr)
             out.stats["buffer_form:" + nm] += 1
